@@ -2351,10 +2351,15 @@ impl PeerConnection {
             // Wait for a state transition instead of re-polling the completed
             // JoinHandle, which would panic.
             if dtls_runner_done {
-                if state_rx.changed().await.is_err() {
-                    break;
-                }
-                continue;
+                // The runner is the only writer of the DTLS state. It has exited
+                // and the state checked above is not terminal (the transport was
+                // closed locally in mid-handshake, e.g. PeerConnection::close()
+                // while connecting): no transition will ever come, so waiting
+                // for one would park this task — and the PeerConnection it
+                // keeps alive — forever.
+                return Err(RtcError::Internal(
+                    "DTLS transport closed before completing handshake".into(),
+                ));
             }
 
             tokio::select! {
